@@ -38,6 +38,25 @@ def run_e2e(args):
                     except Exception as e:  # noqa: BLE001
                         rec["runs"].append({"iface": iface, "split": split, "shuffle": shuffle, "T": T, "take": take,
                                             "error": f"{type(e).__name__}: {str(e)[:200]}"})
+        # two Rust-backed repeating streams alive at the same time, consumed interleaved (train / validation during training)
+        live = [s for s in written if written[s]]
+        if I.supports("rust", a["fmt"], a["comp"]) and len(live) >= 2:
+            try:
+                its = {s: ds.as_numpy_iterator_rust(split=s, repeat=True, shuffle=0, file_parallelism=2) for s in live[:2]}
+                got = {s: [] for s in its}
+                want = {s: a["m"] * len(written[s]) + a["r"] for s in its}
+                step = {live[0]: 3, live[1]: 2}
+                while any(len(got[s]) < want[s] for s in its):
+                    for s in its:
+                        for _ in range(step[s]):
+                            if len(got[s]) < want[s]:
+                                got[s].append(sp.ident(next(its[s])))
+                for s in its:
+                    rec["runs"].append({"iface": "rust", "split": s, "shuffle": 0, "T": 2, "take": want[s], "got": got[s], "interleaved": True})
+                for it in its.values(): it.close()
+            except BaseException as e:  # noqa: BLE001
+                rec["runs"].append({"iface": "rust", "split": live[0], "shuffle": 0, "T": 2, "take": 0, "interleaved": True,
+                                    "error": f"{type(e).__name__}: {str(e)[:200]}"})
         out.append(rec)
         shutil.rmtree(root, ignore_errors=True)
     return out
@@ -67,7 +86,7 @@ def run(ctx):
             split = run_["split"]
             onepass = [x for sh in r["shards"][split] for x in sh]
             N = len(onepass)
-            sig = {"kind": "repeat", "iface": run_["iface"], "shuffled": run_["shuffle"] > 0}
+            sig = {"kind": "repeat", "iface": run_["iface"], "shuffled": run_["shuffle"] > 0, "interleaved": bool(run_.get("interleaved"))}
             if "error" in run_:
                 ctx.report(dict(sig, kind="repeat-error"), f"{run_['iface']} repeat=True raised {run_['error']}", {"case": r["case"], "run": run_}); continue
             got = run_["got"]
